@@ -321,7 +321,7 @@ func (e *Exec) inlineCall(fn *ssa.Function, args []Value, st *State, spec bool) 
 // inlineCallB executes fn's body in place. st is updated to the merged return state.
 func (e *Exec) inlineCallB(fn *ssa.Function, args []Value, bindings []Value, st *State, spec bool) []Value {
 	ch := &Exec{P: e.P, C: e.C, fn: fn, ctx: e.ctx, entry: e.entry, vals: map[ssa.Value]Value{}, params: map[string]Value{}, lets: map[string]Value{},
-		parent: e, depth: e.depth + 1, topName: e.topName, counts: e.counts, defSeen: map[ssa.Value]bool{}, finalCells: map[ssa.Value]Value{}, callOrd: map[string]int{}, specMode: spec || e.specMode,
+		parent: e, depth: e.depth + 1, topName: e.topName, counts: e.counts, defSeen: map[ssa.Value]bool{}, finalCells: map[ssa.Value]Value{}, remembered: map[string]bool{}, callOrd: map[string]int{}, specMode: spec || e.specMode,
 		prefix: e.prefix + "in:" + shortKey(funcKey(fn)) + "/"}
 	ch.fc = e.C.lookup(funcKey(fn))
 	if len(args) != len(fn.Params) {
@@ -755,7 +755,10 @@ func (e *Exec) siteAsserts(ins ssa.Instruction, callee string, args []Value, st 
 			env.results = []Value{r}
 		}
 		if sa.LetName != "" {
-			root.lets[sa.LetName] = env.eval(sa.Clause.Expr)
+			// remembered boolean: path-sensitive ghost (0/1), false until defined
+			env.polarity = polProve
+			b := env.withNeg(func() *Term { return env.evalBool(sa.Clause.Expr) })
+			st.ghost["let:"+sa.LetName] = Ite(b, ConstI(1, I64), ConstI(0, I64))
 			continue
 		}
 		if sa.Assume {
